@@ -57,6 +57,7 @@ Record case := {
   c_text : text;
   c_alnum : list N;                 (* code points >= 128 of the case with str.isalnum() *)
   c_space : list N;                 (* code points >= 128 of the case with str.isspace() *)
+  c_digit : list N;                 (* code points >= 128 of the case with str.isdigit() *)
   c_xid : list N;                   (* code points >= 128 of the case with (a + c).isidentifier() *)
   c_regions : list region;          (* simplify.ignored_regions *)
   c_real : text;                    (* simplify.real_code *)
@@ -94,8 +95,8 @@ Definition check_query (u : utable) (code raw : text) (L : Z) (F : nat) (q : que
   let o := q_off q in
   let wr := get_word_range u code L F o in
   let wa := get_word_at u code raw L F o in
-  let pr := get_primary_range u code L F o in
-  let pa := get_primary_at u code raw L F o in
+  let pr := get_primary_range u code L F false o in
+  let pa := get_primary_at u code raw L F false o in
   (if res_matches pairZ_eqb wr (q_word_range q) && res_matches text_eqb wa (q_word_at q) then [] else [9])
   ++ (if res_matches pairZ_eqb pr (q_primary_range q) && res_matches text_eqb pa (q_primary_at q) then [] else [10])
   ++ (if is_fuel wr || is_fuel wa || is_fuel pr || is_fuel pa then [11] else []).
@@ -109,7 +110,7 @@ Definition dedup (l : list N) : list N :=
    22 reference logical lines (ref_generator) differ from the tokenizer's statements (a fact about the spec),
    21 a theorem's conclusion fails on this case (cannot happen while the proofs are in force) *)
 Definition run_case (c : case) : list N :=
-  let u := table_of (c_alnum c) (c_space c) (c_xid c) in
+  let u := table_of (c_alnum c) (c_space c) (c_xid c) (c_digit c) in
   let s := c_text c in
   let rs := scan_regions u s in
   let rc := real_code u s in
@@ -155,18 +156,18 @@ Definition mismatches (cs : list case) : list (N * N) := mismatches_from 0 cs.
 
 (* how many cases are inside the domain of C14_regions_are_tokens_partial *)
 Definition count_shape_free (cs : list case) : N :=
-  N.of_nat (length (filter (fun c => let u := table_of (c_alnum c) (c_space c) (c_xid c) in
+  N.of_nat (length (filter (fun c => let u := table_of (c_alnum c) (c_space c) (c_xid c) (c_digit c) in
                                      shape_free u (all_lines (c_text c))
                                      && match ref_generator u (all_lines (c_text c)) with Some _ => true | None => false end) cs)).
 Definition count_lex_sane (cs : list case) : N :=
-  N.of_nat (length (filter (fun c => lex_sane (table_of (c_alnum c) (c_space c) (c_xid c)) (c_text c)) cs)).
+  N.of_nat (length (filter (fun c => lex_sane (table_of (c_alnum c) (c_space c) (c_xid c) (c_digit c)) (c_text c)) cs)).
 
 (* per case: 1 if lex_sane holds, +2 if shape_free holds (what the model predicts about the two defect families) *)
 Fixpoint flags_from (i : N) (cs : list case) : list (N * N) :=
   match cs with
   | [] => []
   | c :: r =>
-      let u := table_of (c_alnum c) (c_space c) (c_xid c) in
+      let u := table_of (c_alnum c) (c_space c) (c_xid c) (c_digit c) in
       (i, (if lex_sane u (c_text c) then 1 else 0) + (if shape_free u (all_lines (c_text c)) then 2 else 0))
       :: flags_from (N.succ i) r
   end.
